@@ -27,7 +27,7 @@ def gen_case(seed, i, tier, with_faults=False):
     r = Rng(rs, 'prog')
     hot = r.below(3)
     hot_item = r.below(6)
-    hot_attr = r.below(6)
+    hot_attr = r.choice([0, 1, 2, 3, 4, 5, 5, 5])      # the nullable attribute more often
 
     def arg1(item=False):
         if item:
@@ -65,6 +65,15 @@ def gen_case(seed, i, tier, with_faults=False):
             steps += [['card_acct', 0, other], ['card', hot, 0], ['card_acct', 0, hot]]
             if r.chance(0.5):
                 steps.append(['card_acct', 0, other])
+        elif r.chance(0.15):
+            # read-then-write-elsewhere form: an attribute is read (the nullable one most of the time, NULL at the
+            # start), another attribute of the same object is written and saved, the first one is read again
+            ra = 5 if r.chance(0.7) else r.below(6)
+            hot_attr = ra
+            steps = [['attr', hot, ra], ['own_write', hot, r.below(2)], [r.choice(['commit', 'commit', 'flush']), 0, 0]]
+            for _ in range(r.randint(0, 2)):
+                steps.append([r.choice(['commit', 'sel', 'get', 'tick', 'items_len']), hot, 0])
+            steps.append(['attr', hot, ra])
         elif r.chance(0.3):
             # write-first form: the session assigns an attribute it has not read, may read it back, commits
             # (the session goes on), lets the row be fetched again in some way, and reads the attribute
